@@ -1,4 +1,5 @@
 import Proofs.KeysRoundTrip
+import Proofs.KeysDerCanon
 /-!
 # C09 — keys round-trip through every serialisation and emit exact standard DER
 
@@ -6,7 +7,7 @@ Part 1 (this section): facts about the *generated* tables (`Generated/Curves.lea
 on every run) by kernel evaluation, and the raw-string layer.
 -/
 namespace C09
-open Keys KeysP Gen
+open Keys KeysP Gen Asn1Spec
 
 /-! ## the curve / OID tables of the working tree (`decide +kernel` on the generated definitions) -/
 
@@ -79,6 +80,110 @@ theorem vk_from_string_to_string (E : Ext) (k : VK) (hc : k.curve ∈ curveTable
 theorem sk_from_string_to_string (E : Ext) (k : SK) (hw : SK.WF E k) :
     ∃ bs, k.toString = .ok bs ∧ SK.fromString E k.curve bs = .ok k :=
   sk_fromString_toString E k hw
+
+/-! ## exact standard DER (byte equality with the abstract-syntax encoder of `Proofs/Asn1.lean`) -/
+
+/-- the generated `oid_ecPublicKey` is RFC 5480's `id-ecPublicKey`; `encoded_oid_ecPublicKey` is its DER -/
+theorem oid_ecPublicKey_is_rfc5480 :
+    oid_ecPublicKey = id_ecPublicKey ∧ encoded_oid_ecPublicKey = Asn1.enc (.oid id_ecPublicKey) :=
+  ⟨oid_ecPublicKey_spec, encoded_oid_ecPublicKey_spec⟩
+
+/-- every curve's `encoded_oid` is the DER of its arcs -/
+theorem encoded_oid_is_der : ∀ c ∈ curveTable, Curve.encodedOid c = .ok (Asn1.enc (.oid c.oid)) := table_encodedOid
+
+/-- `VerifyingKey.to_der(enc)` = DER of `SubjectPublicKeyInfo { { id-ecPublicKey, namedCurve }, BIT STRING point }`
+(RFC 5480) with the fixed-length SEC 1 point encoding; `enc = "raw"` raises `ValueError` -/
+theorem vk_to_der_is_spki (k : VK) (hc : k.curve ∈ curveTable) (hx : k.x < k.curve.p) (hy : k.y < k.curve.p)
+    (enc : PointEnc) :
+    (enc ≠ .raw → k.toDer enc = .ok (spki k.curve.oid (encBytes k enc)).enc) ∧
+    (enc = .raw → k.toDer enc = .error .valueError) :=
+  ⟨vk_toDer_spki k hc hx hy enc, fun h => by subst h; rfl⟩
+
+/-- `SigningKey.to_der(enc, "ssleay")` = DER of `ECPrivateKey { 1, OCTET STRING d (orderlen n bytes), [0] namedCurve,
+[1] BIT STRING point }` (RFC 5915) -/
+theorem sk_to_der_is_ecprivatekey (k : SK) (hc : k.curve ∈ curveTable) (hd : k.d < k.curve.n)
+    (hvc : k.vk.curve = k.curve) (hx : k.vk.x < k.curve.p) (hy : k.vk.y < k.curve.p) (enc : PointEnc) (henc : enc ≠ .raw) :
+    k.toDer enc .ssleay =
+      .ok (ecPrivateKey (beFixed (Util.orderlen k.curve.n) k.d) k.curve.oid (encBytes k.vk enc)).enc :=
+  sk_toDer_ssleay k hc hd hvc hx hy enc henc
+
+/-- `SigningKey.to_der(enc, "pkcs8")` = DER of `OneAsymmetricKey { 1, { id-ecPublicKey, namedCurve }, OCTET STRING
+(DER of that ECPrivateKey) }` (RFC 5958) -/
+theorem sk_to_der_pkcs8_is_oneasymmetrickey (k : SK) (hc : k.curve ∈ curveTable) (hd : k.d < k.curve.n)
+    (hvc : k.vk.curve = k.curve) (hx : k.vk.x < k.curve.p) (hy : k.vk.y < k.curve.p) (enc : PointEnc) (henc : enc ≠ .raw) :
+    k.toDer enc .pkcs8 =
+      .ok (oneAsymmetricKey (beFixed (Util.orderlen k.curve.n) k.d) k.curve.oid (encBytes k.vk enc)).enc :=
+  sk_toDer_pkcs8 k hc hd hvc hx hy enc henc
+
+/-! ## round trips through DER and PEM -/
+
+/-- `VerifyingKey.from_der(vk.to_der(enc)) = vk`: every curve of the table, every valid key, every DER point encoding -/
+theorem vk_from_der_to_der (E : Ext) (k : VK) (hc : k.curve ∈ curveTable) (hp : k.curve.p.Prime)
+    (hsqrt : SqrtSpec E.sqrtModP k.curve.p) (hv : ValidPoint E k.curve k.x k.y) (enc : PointEnc) (henc : enc ≠ .raw) :
+    ∃ bs, k.toDer enc = .ok bs ∧ VK.fromDer E bs = .ok k :=
+  vk_fromDer_toDer E k hc hp (find_curve_table _ hc) (table_sanity _ hc).1 (table_sanity _ hc).2.1
+    (table_orderlen_ne_one _ hc) hsqrt hv enc henc
+
+/-- `SigningKey.from_der(sk.to_der(enc, fmt)) = sk`: every curve, every `d ∈ [1, n-1]`, both formats, every encoding -/
+theorem sk_from_der_to_der (E : Ext) (k : SK) (hc : k.curve ∈ curveTable) (hw : SK.WF E k) (enc : PointEnc)
+    (henc : enc ≠ .raw) (fmt : PrivFmt) :
+    ∃ bs, k.toDer enc fmt = .ok bs ∧ SK.fromDer E bs = .ok k :=
+  sk_fromDer_toDer E k hc (find_curve_table _ hc) hw enc henc fmt
+
+/-- `der.unpem(der.topem(d, name)) = d` for a label without newline, given `b64decode(b64encode(d)) = d` (base64 is an
+external function: the hypothesis is its contract; the text between the armour lines is proved to be exactly
+`b64encode(d)`: `pemPayload_topem`) -/
+theorem unpem_topem (E : Ext) (d name : Bytes) (hname : ∀ b ∈ name, b ≠ 10)
+    (hb64 : E.b64decode (b64encode d) = some d) : unpem E (topem d name) = .ok d :=
+  unpem_topem' E d name hname hb64
+
+/-- `VerifyingKey.from_pem(vk.to_pem(enc)) = vk` -/
+theorem vk_from_pem_to_pem (E : Ext) (k : VK) (hc : k.curve ∈ curveTable) (hp : k.curve.p.Prime)
+    (hsqrt : SqrtSpec E.sqrtModP k.curve.p) (hv : ValidPoint E k.curve k.x k.y) (enc : PointEnc) (henc : enc ≠ .raw)
+    (hb64 : ∀ d, E.b64decode (b64encode d) = some d) :
+    ∃ pem, k.toPem enc = .ok pem ∧ VK.fromPem E pem = .ok k := by
+  obtain ⟨bs, h1, h2⟩ := vk_from_der_to_der E k hc hp hsqrt hv enc henc
+  exact vk_fromPem_toPem E k enc bs h1 h2 (hb64 bs)
+
+/-- `SigningKey.from_pem(sk.to_pem(enc, fmt)) = sk` (the `EC PRIVATE KEY` header is not found inside a `PRIVATE KEY`
+armour: `dropToSub_ec_in_p8`) -/
+theorem sk_from_pem_to_pem (E : Ext) (k : SK) (hc : k.curve ∈ curveTable) (hw : SK.WF E k) (enc : PointEnc)
+    (henc : enc ≠ .raw) (fmt : PrivFmt) (hb64 : ∀ d, E.b64decode (b64encode d) = some d) :
+    ∃ pem, k.toPem enc fmt = .ok pem ∧ SK.fromPem E pem = .ok k := by
+  obtain ⟨bs, h1, h2⟩ := sk_from_der_to_der E k hc hw enc henc fmt
+  exact sk_fromPem_toPem E k enc fmt bs h1 h2 (hb64 bs)
+
+/-- keys written by an independent (spec) encoder load to the same values: a spec-encoded SPKI loads as `from_string`
+of its point bytes; spec-encoded ECPrivateKey and OneAsymmetricKey load as `from_string` of the scalar bytes — left-padded
+with zeros to `baselen`, which does not change the scalar — independently of the public-point bytes they carry (so of
+the point encoding chosen by the writer) -/
+theorem loads_independent_encoding (E : Ext) (c : Curve) (hc : c ∈ curveTable) (skStr pt : Bytes)
+    (hs : skStr.length ≤ 66) (hpt : pt.length ≤ 133) :
+    SK.fromDer E (ecPrivateKey skStr c.oid pt).enc = SK.fromString E c (padLeft c skStr) ∧
+    SK.fromDer E (oneAsymmetricKey skStr c.oid pt).enc = SK.fromString E c (padLeft c skStr) ∧
+    beVal (padLeft c skStr) = beVal skStr ∧
+    (pt.length ≠ c.vkLen → VK.fromDer E (spki c.oid pt).enc = VK.fromString E c pt true) :=
+  ⟨(sk_fromDer_spec E c hc (find_curve_table _ hc) skStr pt hs hpt).1,
+   (sk_fromDer_spec E c hc (find_curve_table _ hc) skStr pt hs hpt).2,
+   (padLeft_spec c skStr).1,
+   vk_fromDer_spec E c hc (find_curve_table _ hc) pt hpt⟩
+
+/-- the loaded scalar: `from_string` of `baselen` bytes is `from_secret_exponent` of their big-endian value -/
+theorem sk_from_string_value (E : Ext) (c : Curve) (s : Bytes) (h : s.length = c.baselen) :
+    SK.fromString E c s = SK.fromSecretExponent E c (beVal s) := by
+  have hl := orderlen_pos c.n
+  unfold SK.fromString
+  rw [if_neg (by omega)]
+  have hne : s ≠ [] := by
+    intro hh; subst hh; unfold Curve.baselen at h; simp at h; omega
+  rw [stringToNumber_ok s hne]
+
+/-- non-vacuity of the DER theorems: kernel evaluation of the model on a concrete NIST P-256 key (d = 1), both formats -/
+example :
+    let k : SK := ⟨curve_NIST256p, 1, ⟨curve_NIST256p, curve_NIST256p.gx, curve_NIST256p.gy⟩⟩
+    k.toDer .compressed .pkcs8 = .ok (oneAsymmetricKey (beFixed 32 1) curve_NIST256p.oid (encBytes k.vk .compressed)).enc
+    ∧ k.toDer .hybrid .ssleay = .ok (ecPrivateKey (beFixed 32 1) curve_NIST256p.oid (encBytes k.vk .hybrid)).enc := by
+  decide +kernel
 
 /-- non-vacuity: a well-formed signing key exists on NIST P-256 (d = 1, Q = G) for a suitable `pubPoint` -/
 example : SK.WF { subgroupOk := fun _ _ _ => true, sqrtModP := fun _ _ => .error .squareRoot,
